@@ -360,6 +360,70 @@ func RunGlobalWrites(c *Ctx, pkgs []string) {
 		c.R.Find(Finding{Rule: "E6.R-global", Func: fi.Name, Construct: "write reaching package-level " + org + " via " + types.ExprString(st.lhs), Pos: c.P.Position(st.lhs.Pos()),
 			Msg: fmt.Sprintf("`%s = ...` in %s writes memory that is (or may be aliased with) the package-level variable %s: using one instance changes the defaults seen by every other", types.ExprString(st.lhs), fi.Name, org), Ctl: fi.Ctl})
 	}
+	// mutating method calls on package-level variables (sync.Map.Store, list.PushBack, in-module mutators ...)
+	e1eng := c.e1()
+	readOnly := map[string]bool{"Load": true, "Range": true, "Len": true, "String": true, "Get": true, "Lock": true, "Unlock": true, "RLock": true, "RUnlock": true,
+		"Do": true, "Error": true, "Is": true, "As": true, "Unwrap": true, "Execute": true, "ExecuteTemplate": true, "Lookup": true, "Name": true, "Start": true,
+		"Tracer": true, "Wait": true, "Bytes": true, "Cap": true, "MatchString": true, "FindStringSubmatch": true, "Encode": true, "EncodeToString": true, "DecodeString": true,
+		"Decode": true, "Info": true, "Debug": true, "Warn": true, "ErrorContext": true, "Log": true, "With": true, "Enabled": true}
+	for _, fi := range funcs {
+		info := fi.Pkg.TypesInfo
+		root := fi.Root()
+		if root.Decl != nil && root.Decl.Name.Name == "init" && root.Decl.Recv == nil {
+			continue
+		}
+		ast.Inspect(fi.Body, func(n ast.Node) bool {
+			if lit, ok := n.(*ast.FuncLit); ok && lit != fi.Lit {
+				return false
+			}
+			call, ok := n.(*ast.CallExpr)
+			if !ok {
+				return true
+			}
+			sel, ok := unparen(call.Fun).(*ast.SelectorExpr)
+			if !ok {
+				return true
+			}
+			fn, _ := typeutil.Callee(info, call).(*types.Func)
+			if fn == nil {
+				return true
+			}
+			sig, _ := fn.Type().(*types.Signature)
+			if sig == nil || sig.Recv() == nil || types.IsInterface(sig.Recv().Type()) {
+				return true
+			}
+			base, _ := lhsBase(sel.X)
+			var gobj types.Object
+			switch b := base.(type) {
+			case *ast.Ident:
+				if o := info.Uses[b]; g.globals[o] {
+					gobj = o
+				}
+			}
+			if qs, ok := unparen(sel.X).(*ast.SelectorExpr); ok && gobj == nil {
+				if o, ok := info.Uses[qs.Sel].(*types.Var); ok && g.globals[o] {
+					gobj = o
+				}
+			}
+			if gobj == nil {
+				return true
+			}
+			mutating := false
+			if fn.Pkg() != nil && inModule(fn.Pkg().Path()) {
+				if callee := e1eng.byObj[fn.Origin()]; callee != nil && e1eng.muts[callee][-1] {
+					mutating = true
+				}
+			} else if _, isPtr := sig.Recv().Type().(*types.Pointer); isPtr && !readOnly[fn.Name()] {
+				mutating = true
+			}
+			c.R.Obl(Obligation{Rule: "E6.R-global", Func: fi.Name, Construct: "method call " + types.ExprString(sel) + " on package-level " + objQual(gobj), Pos: c.P.Position(call.Pos()), Discharged: !mutating, Nontrivial: true, Ctl: fi.Ctl})
+			if mutating {
+				c.R.Find(Finding{Rule: "E6.R-global", Func: fi.Name, Construct: "mutating call " + types.ExprString(sel) + " on package-level " + objQual(gobj), Pos: c.P.Position(call.Pos()),
+					Msg: fmt.Sprintf("`%s(...)` in %s mutates the package-level variable %s: state shared by every instance in the process (one provider's use changes what another sees)", types.ExprString(sel), fi.Name, objQual(gobj)), Ctl: fi.Ctl})
+			}
+			return true
+		})
+	}
 	var tf []string
 	for k, v := range g.fields {
 		tf = append(tf, k+" <- "+v)
